@@ -15,6 +15,48 @@ def check(pid):
     return deco
 
 
+CLI_PIDS = ("C01", "C02", "C05", "C06", "C07", "C08", "C09", "C15", "C16", "C17", "C20")
+
+
+def cli_lines(rng, lines, k):
+    """op lines the command-line layer can answer (tools/cli.py), sampled"""
+    out = []
+    for l in lines:
+        tk = l.split()
+        mods = [t for t in tk if t.startswith("@")]
+        if any(not m.startswith("@want=") for m in mods):
+            continue
+        tk = [t for t in tk if not t.startswith("@")]
+        if not tk:
+            continue
+        op = tk[0]
+        if op in ("tu", "regular"):
+            mask = int(tk[1])
+            if (mask >> 5) & 15 or ((mask >> 13) & 7) > 4: continue          # stop flags / invalid strategy: no such options
+            if op == "tu" and not (mask >> 2) & 1: continue                  # binary mode is not available on the command line
+            if (mask >> 19) & 1: l = l.replace(" %d " % mask, " %d " % (mask & ~(1 << 19)), 1)
+            if op == "regular" and (mask >> 18) & 1: l = l.replace(" %d " % (mask & ~(1 << 19)), " %d " % (mask & ~(3 << 18)), 1)
+            out.append(l)
+        elif op in ("graphic", "network"):
+            if tk[2] == "0" or tk[2] == "1":
+                out.append(" ".join(mods + [op, tk[1], "0", "0"] + tk[4:]))
+        elif op == "sp" and tk[2] == "test" and tk[4] == "-1":
+            out.append(" ".join(mods + ["sp", tk[1], "test", str(int(tk[3]) & 15 | 1), "-1"] + tk[5:]))
+        elif op == "camionx":
+            out.append(" ".join(["camion", "test", tk[1]] + tk[2:]))
+        elif op == "balanced" and tk[1] in ("0", "1"):
+            out.append(l)
+        elif op == "ctu":
+            out.append(l)
+        elif op == "equimod" and tk[2] == "0":
+            out.append(l)
+        elif op == "mat" and tk[1] in ("transpose", "support", "ssupport", "copy") and tk[2] in ("c", "i"):
+            out.append(l)
+    if len(out) > k:
+        out = rng.sample(out, k)
+    return out
+
+
 def run_check(pid, tier, seed):
     if pid not in CHECKS:
         print("no check registered for", pid)
@@ -34,6 +76,11 @@ def run_check(pid, tier, seed):
             proof["problems"].append("leanchecker: " + out)
     try:
         info = CHECKS[pid](run)
+        if pid in CLI_PIDS:
+            cl = cli_lines(run.rng, run.all_lines, 400 if tier == "quick" else 4000)
+            run.cli_batch("command-line-tools", cl, "asan")
+            info["rule"] += (" Command-line layer: a sample of the same op lines is answered by the cmr-* tools built from the working tree "
+                             "(option parsing, dense and sparse file readers, output files) and judged by the same model functions.")
     except cmrbuild.BuildError as e:
         d = os.path.join(O.OUT, "replays", pid)
         os.makedirs(d, exist_ok=True)
